@@ -57,6 +57,9 @@ def execute(plan):
 
     t = time.time()
     m = module_for(plan["property"])
+    from simworld import runner
+
+    runner.fresh_state()
     out = m.execute(plan)
     out["wall"] = time.time() - t
     out["prior"] = list(_PRIOR)
